@@ -57,6 +57,16 @@ func init() {
 	})
 	reg("time.Now", func(e *Exec, fn *ssa.Function, a []Value) Value {
 		tb := e.tb
+		if e.cfg.FixedClock {
+			sec := int64(1_700_000_000)
+			if e.lastNow != nil {
+				ps, _ := timeParts(e.lastNow)
+				sec = ps.Int64() + 1
+			}
+			t := e.mkTime(tb.ConstI(64, sec), tb.Const(64, 0))
+			e.lastNow = t
+			return t
+		}
 		sec := e.freshVar("now.sec", 64)
 		nsec := e.freshVar("now.nsec", 64)
 		// a plausible clock: between 1970 and year 2262 (UnixNano representable), nsec in range, non-decreasing
